@@ -1,6 +1,7 @@
 from __future__ import annotations
 
 import asyncio
+import contextlib
 import signal
 import sys
 from collections.abc import Iterable
@@ -103,6 +104,13 @@ class Worker(Router):
             )
         except asyncio.CancelledError as exc:
             logger.critical("Worker was cancelled.", exc_info=exc)
+            if self.health_check_server is not None:
+                # the worker does not run anymore: do not leave the health check port open
+                with contextlib.suppress(Exception):
+                    await asyncio.wait_for(
+                        self.health_check_server.stop(),
+                        timeout=self.graceful_health_check_server_finish_time,
+                    )
             raise
 
         await runner.finish_gracefully(timeout=self.graceful_shutdown_time)
